@@ -9,14 +9,14 @@ Open Scope Z_scope.
    transient storage unchanged *)
 Theorem view_no_write : forall p, check p = true ->
   forall n f g w fr o w' fr' t, nth_error (funs p) f = Some g -> mle (fmut g) View = true ->
-    exec n p w fr (fbody g) = Some (o, w', fr', t) -> quiet t /\ sto w' = sto w /\ tra w' = tra w.
+    exec n p w fr (fbody g) = Done (o, w', fr', t) -> quiet t /\ sto w' = sto w /\ tra w' = tra w.
 Proof. exact view_state_unchanged_lemma. Qed.
 Print Assumptions view_no_write.
 
 (* a checked @pure function additionally reads no environment, balance, msg.value or state *)
 Theorem pure_no_reads : forall p, check p = true ->
   forall n f g w fr o w' fr' t, nth_error (funs p) f = Some g -> fmut g = Pure ->
-    exec n p w fr (fbody g) = Some (o, w', fr', t) -> silent t.
+    exec n p w fr (fbody g) = Done (o, w', fr', t) -> silent t.
 Proof. exact pure_silent_lemma. Qed.
 Print Assumptions pure_no_reads.
 
@@ -25,8 +25,8 @@ Print Assumptions pure_no_reads.
    of their argument) *)
 Theorem pure_independent : forall p, check p = true ->
   forall n f g w fr o w' fr' t, nth_error (funs p) f = Some g -> fmut g = Pure ->
-    exec n p w fr (fbody g) = Some (o, w', fr', t) ->
-    forall w2, ext_pure w2 = ext_pure w -> exec n p w2 fr (fbody g) = Some (o, w2, fr', t).
+    exec n p w fr (fbody g) = Done (o, w', fr', t) ->
+    forall w2, ext_pure w2 = ext_pure w -> exec n p w2 fr (fbody g) = Done (o, w2, fr', t).
 Proof. exact pure_independent_lemma. Qed.
 Print Assumptions pure_independent.
 
@@ -37,9 +37,9 @@ Proof. exact assign_targets_lemma. Qed.
 (* for i in range(e, bound=K): the count is evaluated once, the statement reverts unless count <= K, and the body
    runs exactly count (<= K) times unless it returns earlier *)
 Theorem loop_bound_respected : forall p n w fr i e K b o w' fr' t,
-  exec (S n) p w fr (SFor i (RBound e K) b) = Some (o, w', fr', t) ->
-  exists v w1 t1, eval n p w fr e = Some (v, w1, t1) /\ v <= K /\
-    exists t2, loop (fun w' fr' => exec n p w' fr' b) i (Z.to_nat v) 0 w1 fr = Some (o, w', fr', t2) /\ t = t1 ++ t2.
+  exec (S n) p w fr (SFor i (RBound e K) b) = Done (o, w', fr', t) ->
+  exists v w1 t1, eval n p w fr e = Done (v, w1, t1) /\ v <= K /\
+    exists t2, loop (fun w' fr' => exec n p w' fr' b) i (Z.to_nat v) 0 w1 fr = Done (o, w', fr', t2) /\ t = t1 ++ t2.
 Proof. exact loop_bound_lemma. Qed.
 
 Theorem acyclic_call_graph : forall p, check p = true -> forall f, ~ path p f f.
@@ -73,7 +73,7 @@ Definition w0 := mk_world (fun _ => 3) (fun _ => 0) (fun _ => 0) (fun _ => 0) (f
                           (fun x => x) (fun _ x => x) (fun s x => (s, x)).
 Example effects_nonvacuous :
   check p_ok = true /\
-  (exists w' fr' t, exec 50 p_ok w0 (mk_frame (fun _ => 0) 2 (fun _ => 0)) (fbody f_view) = Some (Returned 21, w', fr', t)) /\
+  (exists w' fr' t, exec 50 p_ok w0 (mk_frame (fun _ => 0) 2 (fun _ => 0)) (fbody f_view) = Done (Returned 21, w', fr', t)) /\
   check (mk_prog [f_pure; f_view_bad; f_write] (fun _ => 7)) = false /\
   check (mk_prog [mk_fn View Internal (SReturn (ECall 0 (ELit 1)))] (fun _ => 0)) = false.
 Proof. repeat split; try (vm_compute; reflexivity). eexists. eexists. eexists. vm_compute. reflexivity. Qed.
